@@ -74,8 +74,29 @@ class Ctx(object):
         for n in names:
             self.analysed["tables"].add(n)
 
-    def ob(self, rule, key, ok, message, site=None, witness=None, detail=None, sample=None, trivial=False):
-        """Record one obligation.  ok=True discharged, ok=False -> finding."""
+    def ob(self, rule, key, ok, message, site=None, witness=None, detail=None, sample=None, trivial=False, cells=None):
+        """Record one obligation.  ok=True discharged, ok=False -> finding.
+
+        cells: optional callable giving [(input description, behaves as the obligation demands?)] by
+        interpreting the function (finite-domain interpreter) on the obligation's own class
+        representatives.  It is consulted only when the shape test fails: a code shape the rule does
+        not recognise is then decided on those representatives instead of being reported, and a
+        finding is reported only if a representative misbehaves (or cannot be interpreted)."""
+        if not ok and cells is not None:
+            from .srcmodel import Unknown
+            try:
+                got = list(cells())
+            except Unknown as e:
+                got = None
+                message = "%s [the representatives could not be interpreted: %s]" % (message, e)
+            if got:
+                bad = [d for d, good in got if not good]
+                if not bad:
+                    ok = True
+                    self.by_table = getattr(self, "by_table", 0) + 1
+                    sample = "shape not recognised; decided on %d interpreted representative(s): %s" % (len(got), "; ".join(d for d, _ in got)[:200])
+                else:
+                    message = "%s [confirmed on the interpreted representative %s]" % (message, bad[0])
         self.obligations += 1
         st = self.rule_stats.setdefault(rule, {"obligations": 0, "discharged": 0})
         st["obligations"] += 1
